@@ -120,9 +120,11 @@ FACTORIES = {
     "with_tdparams": (WithTDParams, "tensor"),
     "plain_attr": (PlainAttr, "tensor"),
 }
-PARAM_KINDS = ["plain", "tdparams", "as_module", "same", "locked", "subset", "param_all", "cross_kind"]
+PARAM_KINDS = ["plain", "tdparams", "as_module", "same", "locked", "subset", "param_all", "cross_kind", "locked_sub"]
 OPTIONS = [{}, {"inplace": True}, {"use_state_dict": True}, {"inplace": False}]
-FAULTS = ["none", "before", "forward_hook", "pre_hook", "after"]
+FAULTS = ["none", "before", "forward_hook", "pre_hook", "after",
+          # left by a BaseException that is not an Exception
+          "keyboard_hook", "system_exit_after", "generator_close", "cancelled_task"]
 
 
 def make_input(kind):
@@ -133,6 +135,9 @@ def make_input(kind):
         return (torch.randn(5, 2, 4, generator=g),)
     from tensordict import TensorDict
     return (TensorDict({"x": torch.randn(5, 3, generator=g)}, batch_size=[5]),)
+
+
+KEEP_ALIVE = []
 
 
 def make_params(kind, module, rng):
@@ -162,6 +167,13 @@ def make_params(kind, module, rng):
         return out
     if kind == "locked":
         return data.lock_()
+    if kind == "locked_sub":
+        # a sub-tensordict of a locked tensordict: it cannot be unlocked on its own
+        from tensordict import TensorDict as _TD
+        parent = _TD({"p": data}, batch_size=[]).lock_()
+        sub = parent["p"]
+        KEEP_ALIVE.append(parent)
+        return sub
     if kind == "subset":
         keys = sorted(data.keys(True, True), key=str)
         keep = [k for k in keys if rng.random() < 0.5] or keys[:1]
@@ -264,7 +276,7 @@ def one_case(run, fname, pkind, opts, fault, rng):
     subs = list(module.modules())
     target = subs[rng.randrange(0, len(subs))] if fault in ("forward_hook", "pre_hook") else None
     # the parameter tensordict as an unreferenced temporary (the swap only keeps a weak reference to it)
-    temp = pkind not in ("same", "as_module") and rng.random() < 0.4
+    temp = pkind not in ("same", "as_module", "locked_sub") and rng.random() < 0.4
     differ = shared_subtrees_differ(module, params)
     run.count("zoo.params_temporary", temp)
     handle = None
@@ -272,6 +284,51 @@ def one_case(run, fname, pkind, opts, fault, rng):
     swap_td = None
     entered = False
     raised = None
+    inside_bad = None
+    if fault in ("generator_close", "cancelled_task"):
+        # the block lives inside a generator closed by its consumer / a coroutine whose task is cancelled
+        import asyncio
+        entered = True
+        try:
+            with time_limit(90):
+                if fault == "generator_close":
+                    def gen():
+                        with params.to_module(module, **opts):
+                            yield 1
+                            yield 2
+                    g = gen()
+                    next(g)
+                    g.close()
+                else:
+                    async def body():
+                        with params.to_module(module, **opts):
+                            await asyncio.sleep(30)
+
+                    async def main_():
+                        t = asyncio.ensure_future(body())
+                        await asyncio.sleep(0)
+                        t.cancel()
+                        try:
+                            await t
+                        except asyncio.CancelledError:
+                            pass
+                    asyncio.run(main_())
+        except TimeoutError:
+            raise
+        except Exception as e:  # noqa: BLE001
+            raised = e
+            if isinstance(e, RuntimeError) and "boolean" in str(e):
+                run.oracle_fail("zoo_restore", case, "the GeneratorExit / CancelledError leaving the block was replaced by " + str(e)[:60], "zoo:base-exception-masked")
+                return
+            run.count("zoo.entry_error", f"{fname}/{pkind}/{sorted(opts)}:{type(e).__name__}")
+            return
+        d = diff(before, snap(module))
+        if d:
+            run.oracle_fail("zoo_restore", case, f"module differs after a block left by {fault}: " + ",".join(d[:6]),
+                            f"zoo:{'+'.join(f'{k}={v}' for k, v in sorted(opts.items())) or 'default'}:base-exception:{d[0].split(':')[0]}")
+        else:
+            run.oracle_ok("zoo_restore")
+        return
     try:
         with time_limit(90):
             swap_td = params.to_module(module, **opts)
@@ -282,14 +339,29 @@ def one_case(run, fname, pkind, opts, fault, rng):
                     gc.collect()
             with swap_td:
                 entered = True
+                # a TensorDictParams inside the module tree exposes exactly its (now swapped-in) leaves also inside the block
+                from tensordict.nn import TensorDictParams as _TDP
+                for sub in module.modules():
+                    if isinstance(sub, _TDP):
+                        lv = {(".".join(k) if isinstance(k, tuple) else k): v for k, v in sub._param_td.items(True, True)}
+                        ex = dict(sub.named_parameters(remove_duplicate=False))
+                        ex.update(dict(sub.named_buffers(remove_duplicate=False)))
+                        if set(lv) != set(ex) or any(ex[k] is not lv[k] for k in lv):
+                            inside_bad = f"inside the block a TensorDictParams submodule exposes {sorted(ex)} (stale objects) while its leaves are the swapped-in ones"
                 if fault == "before":
                     raise Boom()
+                if fault == "keyboard_hook":
+                    handle = subs[-1].register_forward_hook(lambda *a, **k: (_ for _ in ()).throw(KeyboardInterrupt()))
                 if fault == "forward_hook":
                     handle = target.register_forward_hook(lambda *a, **k: (_ for _ in ()).throw(Boom()))
                 elif fault == "pre_hook":
                     handle = target.register_forward_pre_hook(lambda *a, **k: (_ for _ in ()).throw(Boom()))
                 if fname != "lazy" or fault != "none":
                     out = as_out(module(*copy.deepcopy(args))) if fname != "lazy" else None
+                if fault == "system_exit_after":
+                    raise SystemExit(3)
+                if fault == "keyboard_hook":
+                    raise KeyboardInterrupt()
                 if fault != "none":
                     raise Boom()
     except TimeoutError:
@@ -298,6 +370,10 @@ def one_case(run, fname, pkind, opts, fault, rng):
         raised = e
     except Exception as e:  # noqa: BLE001
         raised = e
+    except (KeyboardInterrupt, SystemExit) as e:
+        if fault not in ("keyboard_hook", "system_exit_after"):
+            raise
+        raised = Boom()      # the injected BaseException arrived unchanged
     finally:
         if handle is not None:
             handle.remove()
@@ -309,6 +385,9 @@ def one_case(run, fname, pkind, opts, fault, rng):
         run.count("zoo.body_or_exit_error", f"{fname}/{pkind}/{sorted(opts)}/{fault}:{type(raised).__name__}")
     d = diff(before, snap(module))
     fp_opts = "+".join(f"{k}={v}" for k, v in sorted(opts.items())) or "default"
+    if inside_bad and not opts:
+        run.oracle_fail("zoo_restore", case, inside_bad, "zoo:tdparams-module-stale-inside")
+        return
     if d:
         run.oracle_fail("zoo_restore", case, f"module differs after the block (exception: {type(raised).__name__ if raised else None}): " + ",".join(d[:6]),
                         f"zoo:{fp_opts}:{'raise' if fault != 'none' else 'normal'}:{d[0].split(':')[0]}:{d[0].split(':')[-1]}")
@@ -449,6 +528,7 @@ def run_zoo(run):
         # every factory x every option x {normal, one fault} at least once, then a random sample
         must = [(f, "plain", o, ft) for f in FACTORIES for o in range(len(OPTIONS)) for ft in ("none", "before")]
         must += [(f, pk, 0, ft) for f in FACTORIES for pk in PARAM_KINDS for ft in ("none", "forward_hook")]
+        must += [(f, "plain", 0, ft) for f in FACTORIES for ft in ("keyboard_hook", "system_exit_after", "generator_close", "cancelled_task")]
         combos = must + combos[:120]
     seen = set()
     for f, pk, o, ft in combos:
